@@ -226,6 +226,10 @@ func c09Run(c *Ctx) {
 			}
 		}
 	}
+	if c.Shard == 0 {
+		c.Sample(map[string]any{"plaintext": c09Classes[3].text(5), "class": "utf8-4byte", "length_units": 5, "keys": len(keys)})
+		c.Sample(map[string]any{"corruption": "ciphertext of a 17-byte plaintext, byte 20 XOR 0x01", "expected": "Decrypt returns an error"})
+	}
 	// ---- (3) end to end through the CLI: redact --encrypt, then decrypt every distinct ciphertext found
 	// at a SECRET position
 	c09CLI(c)
